@@ -63,7 +63,7 @@ Proof. tower fs. Qed.
 Lemma tower_cosh x : is_tower cosh (tw3 m_cosh) x.
 Proof. tower fs. Qed.
 Lemma tower_tanh x : is_tower tanh (tw3 m_tanh) x.
-Proof. pose proof (cosh_pos x). tower fs. Qed.
+Proof. pose proof (cosh_pos x). tower ltac:(unfold tanh; fs). Qed.
 Lemma tower_asinh x : is_tower arcsinh (tw3 m_asinh) x.
 Proof. assert (0 < 1 + x * x) by nra. pose proof (inv_pos_div _ H). tower ns. Qed.
 Lemma tower_atanh x : -1 < x < 1 -> is_tower Ratanh (tw3 m_atanh) x.
